@@ -273,6 +273,128 @@ theorem join_nil_eq_flatten (l : List Str) : join [] l = l.flatten := by
     | nil => simp [join]
     | cons b r' => simp only [join, List.append_nil, List.flatten_cons] at ih ⊢; rw [ih]
 
+/-! ### value wrapping with the quotation-mark guard (`wrapAuxV`, `cutAuxV`) -/
+
+/-- `Bnd` and, in addition, no boundary between a quotation mark and a '/' -/
+def BndQ : Char → List Str → Prop
+  | _, [] => True
+  | _, [_] => True
+  | p, c :: c' :: r =>
+    c.getLast?.getD p ≠ ' ' ∧ (∃ x xs, c' = x :: xs ∧ x ≠ ' ' ∧ ¬ (c.getLast?.getD p = '"' ∧ x = '/')) ∧ BndQ p (c' :: r)
+
+theorem BndQ_irrel (p q : Char) (x : Char) (xs : Str) (r : List Str) : BndQ p ((x :: xs) :: r) → BndQ q ((x :: xs) :: r) := by
+  induction r generalizing x xs with
+  | nil => intro _; trivial
+  | cons c' r' ih =>
+    intro h
+    obtain ⟨h1, ⟨y, ys, hy, hne, hg⟩, h3⟩ := h
+    subst hy
+    have e : (x :: xs).getLast? = some ((x :: xs).getLast (by simp)) := List.getLast?_eq_some_getLast (by simp)
+    refine ⟨?_, ⟨y, ys, rfl, hne, ?_⟩, ih y ys h3⟩
+    · rw [e] at h1 ⊢; exact h1
+    · rw [e] at hg ⊢; exact hg
+
+theorem BndQ_consHead (p c : Char) (l : List Str) (h : BndQ c l) : BndQ p (consHead c l) := by
+  match l, h with
+  | [], _ => trivial
+  | [x], _ => trivial
+  | x :: y :: r, ⟨h1, h2, h3⟩ =>
+    obtain ⟨z, zs, hz, hne, hg⟩ := h2
+    subst hz
+    refine ⟨?_, ⟨z, zs, rfl, hne, ?_⟩, BndQ_irrel c p z zs r h3⟩
+    · rw [getLast?_cons_getD]; exact h1
+    · rw [getLast?_cons_getD]; exact hg
+
+theorem wrapAuxV_ne_nil (bs : List Nat) (i : Nat) (p : Char) (s : Str) : wrapAuxV bs i p s ≠ [] := by
+  match s with
+  | [] => simp [wrapAuxV]
+  | [c] => simp [wrapAuxV]
+  | c :: n :: rest =>
+    simp only [wrapAuxV]; split
+    · simp
+    · exact consHead_ne_nil _ _
+
+theorem join_wrapAuxV (bs : List Nat) (i : Nat) (p : Char) (s : Str) : join c!" " (wrapAuxV bs i p s) = s := by
+  induction s generalizing i p with
+  | nil => rfl
+  | cons c t ih =>
+    cases t with
+    | nil => rfl
+    | cons n rest =>
+      simp only [wrapAuxV]
+      split
+      · rename_i h
+        have hne := wrapAuxV_ne_nil bs (i + 1) c (n :: rest)
+        cases hw : wrapAuxV bs (i + 1) c (n :: rest) with
+        | nil => exact absurd hw hne
+        | cons x xs =>
+          have := ih (i + 1) c
+          rw [hw] at this
+          simp only [join, List.nil_append]
+          rw [this, h.1]; rfl
+      · rw [join_consHead _ _ _ (wrapAuxV_ne_nil _ _ _ _), ih]
+
+theorem wrapAuxV_after_blank (bs : List Nat) (i : Nat) (n : Char) (rest : Str) :
+    ∃ xs r, wrapAuxV bs i ' ' (n :: rest) = (n :: xs) :: r := by
+  cases rest with
+  | nil => exact ⟨[], [], rfl⟩
+  | cons m rest' =>
+    simp only [wrapAuxV]
+    rw [if_neg (by simp)]
+    have hne := wrapAuxV_ne_nil bs (i + 1) n (m :: rest')
+    cases hw : wrapAuxV bs (i + 1) n (m :: rest') with
+    | nil => exact absurd hw hne
+    | cons x xs => exact ⟨x, xs, rfl⟩
+
+theorem BndQ_wrapAuxV (bs : List Nat) (i : Nat) (p : Char) (s : Str) : BndQ p (wrapAuxV bs i p s) := by
+  induction s generalizing i p with
+  | nil => trivial
+  | cons c t ih =>
+    cases t with
+    | nil => trivial
+    | cons n rest =>
+      simp only [wrapAuxV]
+      split
+      · rename_i h
+        obtain ⟨hc, hp, hn, hg, _⟩ := h
+        subst hc
+        obtain ⟨xs, r, hw⟩ := wrapAuxV_after_blank bs (i + 1) n rest
+        have := ih (i + 1) ' '
+        rw [hw] at this ⊢
+        exact ⟨by simpa using hp, ⟨n, xs, rfl, hn, by simpa using hg⟩, BndQ_irrel ' ' p n xs r this⟩
+      · exact BndQ_consHead p c _ (ih (i + 1) c)
+
+theorem cutAuxV_ne_nil (bs : List Nat) (i : Nat) (p : Char) (s : Str) : cutAuxV bs i p s ≠ [] := by
+  cases s with
+  | nil => simp [cutAuxV]
+  | cons c rest => simp only [cutAuxV]; split <;> simp [consHead_ne_nil]
+
+theorem flatten_cutAuxV (bs : List Nat) (i : Nat) (p : Char) (s : Str) : (cutAuxV bs i p s).flatten = s := by
+  induction s generalizing i p with
+  | nil => rfl
+  | cons c rest ih =>
+    simp only [cutAuxV]
+    split
+    · simp [consHead_flatten, ih]
+    · simp [consHead_flatten, ih]
+
+theorem BndQ_cutAuxV (bs : List Nat) (i : Nat) (p : Char) (s : Str) : BndQ p (cutAuxV bs i p s) := by
+  induction s generalizing i p with
+  | nil => trivial
+  | cons c rest ih =>
+    simp only [cutAuxV]
+    split
+    · rename_i h
+      obtain ⟨hp, hc, hg, _⟩ := h
+      have hne := cutAuxV_ne_nil bs (i + 1) c rest
+      cases hw : cutAuxV bs (i + 1) c rest with
+      | nil => exact absurd hw hne
+      | cons x xs =>
+        have := BndQ_consHead p c _ (ih (i + 1) c)
+        rw [hw] at this
+        exact ⟨by simpa using hp, ⟨c, x, rfl, hc, by simpa using hg⟩, this⟩
+    · exact BndQ_consHead p c _ (ih (i + 1) c)
+
 /-! ### `cutLoc` (locations cut after a comma) -/
 
 theorem cutLocAux_ne_nil (bs : List Nat) (i : Nat) (s : Str) : cutLocAux bs i s ≠ [] := by
@@ -312,6 +434,41 @@ theorem cutLocAux_chunks_ne (bs : List Nat) (i : Nat) (s : Str) (hs : s ≠ []) 
         · cases rest with
           | nil => simp [cutLocAux] at hw; obtain ⟨_, rfl⟩ := hw; simp at hx
           | cons r rs => exact ih (i + 1) (by simp) x (by rw [hw]; simp [hx])
+
+/-- the first chunk starts with the first character -/
+theorem cutLocAux_head (bs : List Nat) (i : Nat) (x : Char) (r : Str) :
+    ∃ xs rest, cutLocAux bs i (x :: r) = (x :: xs) :: rest := by
+  simp only [cutLocAux]
+  split
+  · exact ⟨[], _, rfl⟩
+  · cases hw : cutLocAux bs (i + 1) r with
+    | nil => exact absurd hw (cutLocAux_ne_nil _ _ _)
+    | cons y ys => exact ⟨y, ys, rfl⟩
+
+/-- no chunk after the first begins with '/' -/
+theorem cutLocAux_tail_heads (bs : List Nat) (i : Nat) (s : Str) : ∀ c ∈ (cutLocAux bs i s).drop 1, c.head? ≠ some '/' := by
+  induction s generalizing i with
+  | nil => simp [cutLocAux]
+  | cons c rest ih =>
+    simp only [cutLocAux]
+    split
+    · rename_i h
+      obtain ⟨_, hne, hhead, _⟩ := h
+      obtain ⟨x, r, rfl⟩ : ∃ x r, rest = x :: r := by cases rest with | nil => exact absurd rfl hne | cons x r => exact ⟨x, r, rfl⟩
+      obtain ⟨xs, more, hw⟩ := cutLocAux_head bs (i + 1) x r
+      intro d hd
+      simp only [List.drop_succ_cons, List.drop_zero] at hd
+      rw [hw] at hd
+      rcases List.mem_cons.mp hd with rfl | hd
+      · simpa using hhead
+      · have := ih (i + 1); rw [hw] at this; exact this d (by simpa using hd)
+    · intro d hd
+      cases hw : cutLocAux bs (i + 1) rest with
+      | nil => exact absurd hw (cutLocAux_ne_nil _ _ _)
+      | cons y ys =>
+        rw [hw] at hd
+        have := ih (i + 1); rw [hw] at this
+        exact this d (by simpa [consHead] using hd)
 
 theorem mem_of_mem_flatten_chunk (l : List Str) (c : Str) (hc : c ∈ l) : ∀ x ∈ c, x ∈ l.flatten := by
   intro x hx; exact List.mem_flatten.mpr ⟨c, hc, hx⟩
